@@ -69,4 +69,37 @@ REGISTRY: dict[str, dict] = {
              "raise and what it yielded before must be the referee's denotation of the valid prefix. Non-trivial = every "
              "injected stream the referee rejects.",
     ),
+    "C06": dict(
+        modules=["C06", "C13", "Tables"],
+        theorems=[T + "C06_nothing_left_in_flow", T + "C06_rows_independent_of_flow", T + "C06_no_empty_frame",
+                  T + "C13_infer_flow_table"],
+        table_theorems=[T + "tables_stream_new", T + "tables_flow_mk", T + "tables_flow_for_type"],
+        rule="SER over the configuration lattice {Triple,Quad,Graph}Stream x 8 logical types x delimited{T,F} x flow in "
+             "{inferred, each of the 6 FrameFlow classes x frame_size{default,3}} x frame_size{1,2,3,7,250} (quick: 500 sampled "
+             "points; thorough: all 936) via stream_frames with sink and generator input, plus flat_/grouped_stream_to_file "
+             "and sink.serialize; oracle: accepted => flow empty on return and written bytes parse back to the input. "
+             "Non-trivial = a configuration the serializer accepts.",
+    ),
+    "C11": dict(
+        modules=["C06", "C10"],
+        theorems=[T + "C11_trace_faithful", T + "C11_pending_below_frame_size", T + "C11_no_lookahead",
+                  T + "C10_events_prefix", T + "C10_frames_prefix"],
+        rule="SERSTEP: pull/yield traces of stream_frames(stream, instrumented generator) for Triple/Quad/GraphStream, frame "
+             "sizes {1,2,3,5,7,250}, compared with the model's trace; oracle (i) pending < frame_size at pulls >= 2, (ii) one "
+             "frame at most between pulls, (iii) statement rows handed out == statements pulled at every yield. Parse side: "
+             "raw and buffered non-seekable sources that stall (raise) after every frame boundary; oracle: everything of the "
+             "delivered frames is yielded before the stall. Non-trivial = trace with >= 2 statements / every stall point.",
+        assumptions=["actual blocking is represented as 'requests bytes not yet delivered' (the source raises); real sockets "
+                     "are runtime behaviour the model cannot exhibit"],
+    ),
+    "C12": dict(
+        modules=["C06"],
+        theorems=[T + "C12_isolation"],
+        rule="SER byte-exact against the pure model for a seed-derived workload set, re-run (a) after other streams were "
+             "created and abandoned mid-way, (b) with generator steps of 4 serializers + parsers interleaved at random, (c) in "
+             "4-8 threads, (d) in fresh subprocesses with PYTHONHASHSEED in {0,1,2,12345,...}; static AST scan of pyjelly for "
+             "mutation sites of module/class-level mutable objects. Non-trivial = every workload.",
+        assumptions=["thread interleavings are sampled at API-call granularity; bytecode-level preemption inside a call is "
+                     "runtime behaviour the model cannot exhibit (claimed partial)"],
+    ),
 }
